@@ -1933,6 +1933,7 @@ def _find_row_differences(qflat):
     diffs: 1D array
         The indices where rows change, including the first and last. Equivalent to:
         ``[0]+[i for i in range(1, len(qflat)) if np.any(qflat[i-1] != qflat[i])] + [len(qflat)]``
+        (just ``[0]`` for an array with charges but without rows).
 
     """
     if qflat.shape[1] == 0:
